@@ -60,15 +60,18 @@ def canon_reservoir(case, obs):
 
 def oracle_reservoir(case, obs):
     adds, added = 0, set()
+    asked = case['cap']                   # the capacity the caller ASKED for (constructor, then the last resize)
     for op, o in zip(case['ops'], obs):
         if op[0] == 'add':
             adds += 1
             added.add(op[1])
+        else:
+            asked = op[1]
         if o[0] == 'raise':
             return ('sample store raised %s' % o[1], 'reservoir-raises')
         _, cap, total, data = o
-        if len(data) > cap:
-            return ('sample store holds %d values with capacity %d' % (len(data), cap), 'reservoir-over-capacity')
+        if len(data) > cap or len(data) > asked:
+            return ('sample store holds %d values with capacity %d (its own _cap says %s)' % (len(data), asked, cap), 'reservoir-over-capacity')
         if total != adds:
             return ('sample store reports %d values added, %d were' % (total, adds), 'reservoir-total')
         if not set(data) <= added:
